@@ -22,7 +22,7 @@ TECHNIQUE = 'crash-point enumeration over Hypothesis-generated programs and hist
 RULE = ('Each evaluation = one (program, history prefix, crash point k) run: the build is executed with an exception raised '
         'at the k-th statement boundary of user code (before/after each builder call, inside nested functions, after the '
         'last statement; all k when K<=16, else 16 drawn positions), plus one cache-write failure per prefix, plus natural '
-        'failing builds in the prefix. Checked: identity of the propagated exception, every pre-existing regular file back '
+        'failing builds in the prefix; in a fifth of the cases an output path is first made a symbolic link (absolute or relative) to a regular file. Checked: identity of the propagated exception, every pre-existing regular file back '
         'with identical bytes+mtime_ns, no new file/directory (except re-created directories of the previous build), temp '
         'dir empty, and the following build equal to its twin without the failed build (outcome, tree with mtimes, '
         'invocation log). Non-trivial = crash on top of a valid cache after the failed build had already written >=1 output '
